@@ -246,6 +246,17 @@ impl<SI, I> Sink<SI> for VTransport<SI, I> {
             emit("Fault", json!({"ep": s.ep, "op": "send", "kind": d.get("kind").cloned().unwrap_or(json!("")), "c": d.get("c").cloned().unwrap_or(json!(-1)), "item": d}));
             return Err(VErr("send".into()));
         }
+        // a sink that was not ready cannot take the item (as a bounded queue or a full socket buffer would)
+        let room = match s.mode {
+            Mode::Always => true,
+            Mode::Coupled => s.buffered.len() < s.cap,
+            Mode::Independent => s.credits > 0,
+        };
+        if !room {
+            s.log("send", "full", json!({"item": d}));
+            emit("SendRefused", json!({"ep": s.ep, "item": d}));
+            return Err(VErr("full".into()));
+        }
         if s.mode == Mode::Independent && s.credits > 0 {
             s.credits -= 1;
         }
